@@ -86,6 +86,10 @@ class SimSocket(object):
         if not self.closed:
             self.closed = True
             self.env.log('close')
+            if getattr(self, 'close_fails', False):
+                # close() released the descriptor and reports an error left over from earlier writes (EIO, ECONNRESET on some systems)
+                self.close_fails = False
+                raise OSError(5, 'Input/output error')
 
     def settimeout(self, t):
         pass
@@ -379,6 +383,10 @@ class Env(object):
         elif kind == 'reset':
             if sock is not None:
                 sock.reset = True
+        elif kind == 'close-error':
+            # from now on the first close() of this connection reports an error (the connection is released all the same)
+            if sock is not None:
+                sock.close_fails = True
         elif kind == 'gone':
             # the connection is dead but nothing is readable yet: the next send fails (EPIPE / ECONNRESET)
             if sock is not None:
@@ -603,6 +611,9 @@ def make_primitive(spec):
         pdus = [P.PDataTfPDU([P.PresentationDataValueItem(1, bytes([3 if i == nfrag - 1 else 1]) + pc)])
                 for i, pc in enumerate(pieces)]
         return iter(pdus)
+    if kind == 'pdata_same':
+        one = P.PDataTfPDU([P.PresentationDataValueItem(1, bytes([3]) + echo_cmd(9))])
+        return iter([one, one])
     raise HarnessError('unknown primitive %r' % (spec,))
 
 
